@@ -4,6 +4,7 @@
 package main
 
 import (
+	"context"
 	"encoding/json"
 	"errors"
 	"fmt"
@@ -15,8 +16,13 @@ import (
 	"github.com/agglayer/aggkit/bridgesync"
 	"github.com/agglayer/aggkit/db"
 	aggkitlog "github.com/agglayer/aggkit/log"
+	aggsync "github.com/agglayer/aggkit/sync"
+	aggkittypes "github.com/agglayer/aggkit/types"
+	"github.com/ethereum/go-ethereum"
 	"github.com/ethereum/go-ethereum/accounts/abi"
 	"github.com/ethereum/go-ethereum/common"
+	"github.com/ethereum/go-ethereum/core/types"
+	"github.com/ethereum/go-ethereum/crypto"
 
 	"verifharness/hlib"
 )
@@ -53,8 +59,8 @@ type InputSpec struct {
 	Base *InputSpec `json:"base,omitempty"`
 	Muts []Mut      `json:"muts,omitempty"`
 	// annotations written by the harness (ignored on input)
-	Sel string `json:"sel,omitempty"` // first 4 bytes actually put on the wire ("" when shorter)
-	Dec *bool  `json:"dec,omitempty"` // go-ethereum unpacks these bytes under the ABI the selector belongs to
+	Sel string  `json:"sel,omitempty"` // first 4 bytes actually put on the wire ("" when shorter)
+	Dec *bool   `json:"dec,omitempty"` // go-ethereum unpacks these bytes under the ABI the selector belongs to
 	Raw *string `json:"raw,omitempty"` // the bytes on the wire (hex), given for frames addressed to the bridge
 	// Eff: for a "mut" input that go-ethereum still unpacks: what go-ethereum itself (UnpackIntoMap, fields taken BY ARGUMENT
 	// NAME, independent of the code under test) reads from the mutated bytes, as a claim description
@@ -121,7 +127,19 @@ type ObsClaim struct {
 	Msg  bool     `json:"msg"`
 }
 
+// ViaLog: the same claim obtained through the REAL log appender of the bridge syncer (bridgesync.buildAppender, syncFullClaims = true):
+// a ClaimEvent log carrying claim0's event fields goes in, the appender parses it, calls setClaimCalldata with the same trace and
+// appends the Claim. Only for claim0 shapes that a handler can produce (From = log address: Etrog handler; From = 0: pre-Etrog).
+type ViaLog struct {
+	Pre   bool     `json:"pre"`   // pre-Etrog event (uint32 index) and handler
+	Data  string   `json:"data"`  // the log's data (hex): what the Gallina event decoder reads
+	Err   string   `json:"err"`   // error class of the appender call
+	Claim ObsClaim `json:"claim"` // the Claim the appender appended (zero value when it returned an error)
+	Agree bool     `json:"agree"` // same error class and, on success, the same Claim as the direct call (fields a handler does not set: zero)
+}
+
 type Out struct {
+	ViaLog *ViaLog  `json:"via_log,omitempty"`
 	In     In       `json:"in"`
 	Err    string   `json:"err"` // "" | notfound | root_reverted | short | selector | unpack | rpc | other | panic
 	ErrMsg string   `json:"err_msg,omitempty"`
@@ -547,7 +565,90 @@ func run(in In) (o Out) {
 		o.Err, o.ErrMsg = classifyErr(err)
 	}()
 	o.Claim = dump(claim)
+	o.ViaLog = viaLog(in, raw, &o)
 	return o
+}
+
+var (
+	claimSigEtrog = crypto.Keccak256Hash([]byte("ClaimEvent(uint256,uint32,address,address,uint256)"))
+	claimSigPre   = crypto.Keccak256Hash([]byte("ClaimEvent(uint32,uint32,address,address,uint256)"))
+)
+
+// zeroBackend: what the contract bindings need to be constructed and what buildAppender asks once (gasTokenAddress() = 0)
+type zeroBackend struct {
+	aggkittypes.BaseEthereumClienter
+}
+
+func (zeroBackend) CallContract(context.Context, ethereum.CallMsg, *big.Int) ([]byte, error) {
+	return make([]byte, 32), nil
+}
+func (zeroBackend) CodeAt(context.Context, common.Address, *big.Int) ([]byte, error) {
+	return []byte{0x60}, nil
+}
+
+func viaLog(in In, raw []byte, direct *Out) *ViaLog {
+	s := in.Claim0
+	pre := false
+	switch {
+	case addrOf(s.From) == addrOf(in.Bridge):
+	case hexBig(s.From).Sign() == 0:
+		pre = true
+	default:
+		return nil
+	}
+	gi := hlib.UnDec(in.GI)
+	if pre && gi.BitLen() > 32 {
+		return nil
+	}
+	if s.PLER.B != "0" && s.PLER.B != "" || len(s.PLER.L) > 0 || !s.NilMeta { // claim0 already carries details: not a handler's output
+		return nil
+	}
+	bridge := addrOf(in.Bridge)
+	client := &fakeRPC{raw: raw, fail: in.Kind == "rpcfail" || in.Root == nil, txHash: common.BigToHash(hexBig(in.TxHash))}
+	v2, err := polygonzkevmbridgev2.NewPolygonzkevmbridgev2(bridge, zeroBackend{})
+	if err != nil {
+		panic(err)
+	}
+	app, err := bridgesync.VerifBuildAppender(aggkittypes.NewDefaultEthClient(zeroBackend{}, client), bridge, true, v2, quietLog)
+	if err != nil {
+		panic(err)
+	}
+	var data []byte
+	sig := claimSigEtrog
+	if pre {
+		sig = claimSigPre
+		data, err = abiPre.Events["ClaimEvent"].Inputs.NonIndexed().Pack(uint32(gi.Uint64()), s.ONet, addrOf(s.OAddr), addrOf(s.DAddr), hlib.UnDec(orZero(s.Amount)))
+	} else {
+		data, err = abiEtrog.Events["ClaimEvent"].Inputs.NonIndexed().Pack(gi, s.ONet, addrOf(s.OAddr), addrOf(s.DAddr), hlib.UnDec(orZero(s.Amount)))
+	}
+	if err != nil {
+		panic(err)
+	}
+	lg := types.Log{Address: bridge, Topics: []common.Hash{sig}, Data: data, BlockNumber: s.BlockNum, TxHash: client.txHash, Index: uint(s.BlockPos)}
+	blk := &aggsync.EVMBlock{EVMBlockHeader: aggsync.EVMBlockHeader{Num: s.BlockNum, Timestamp: s.BlockTs}}
+	v := &ViaLog{Pre: pre, Data: hlib.Hex(data)}
+	func() {
+		defer func() {
+			if r := recover(); r != nil {
+				v.Err = "panic"
+			}
+		}()
+		v.Err, _ = classifyErr(app[sig](blk, lg))
+	}()
+	want := direct.Claim
+	if v.Err == "" && len(blk.Events) == 1 {
+		if ev, ok := blk.Events[0].(bridgesync.Event); ok && ev.Claim != nil {
+			v.Claim = dump(ev.Claim)
+		}
+		if pre { // the pre-Etrog handler sets neither TxHash nor BlockTimestamp
+			want.Rest = append([]string{}, want.Rest...)
+			want.Rest[2], want.Rest[7] = "0", "0"
+		}
+		v.Agree = direct.Err == "" && fmt.Sprint(v.Claim) == fmt.Sprint(want)
+	} else {
+		v.Agree = v.Err == direct.Err && len(blk.Events) == 0
+	}
+	return v
 }
 
 // ---------------------------------------------------------------------------------------------------------
